@@ -258,19 +258,79 @@ Proof.
       * rewrite map_app. apply incl_appl. exact Hincl.
 Qed.
 
-Lemma pool_sync_SKP c listed p : SKP (p_workers p) (p_workers (pool_sync c listed p)).
+Lemma pool_sync_is_sync_at c listed p : pool_sync c listed p = pool_sync_at c (fst (tick p)) listed (snd (tick p)).
+Proof. reflexivity. Qed.
+
+Lemma pool_sync_at_SKP c th listed p : SKP (p_workers p) (p_workers (pool_sync_at c th listed p)).
 Proof.
-  unfold pool_sync. cbn [tick p_workers p_clock p_exited p_quota].
-  destruct (sync_listed c listed (p_workers p) (p_clock p + 1)) as [ws clock] eqn:E. cbn [p_workers].
+  unfold pool_sync_at.
+  destruct (sync_listed c listed (p_workers p) (p_clock p)) as [ws clock] eqn:E. cbn [p_workers].
   intros w' Hin. apply filter_In in Hin. destruct Hin as [Hin _].
   eapply (sync_listed_SKP c (p_workers p)); [apply F2_SKP; apply F2_refl|apply incl_refl|exact E|exact Hin].
 Qed.
 
-Lemma pool_sync_nodup c listed p : NoDup (map w_id (p_workers p)) -> NoDup (map w_id (p_workers (pool_sync c listed p))).
+Lemma pool_sync_at_nodup c th listed p :
+  NoDup (map w_id (p_workers p)) -> NoDup (map w_id (p_workers (pool_sync_at c th listed p))).
 Proof.
-  unfold pool_sync. cbn [tick p_workers p_clock p_exited p_quota].
-  destruct (sync_listed c listed (p_workers p) (p_clock p + 1)) as [ws clock] eqn:E. cbn [p_workers].
+  unfold pool_sync_at.
+  destruct (sync_listed c listed (p_workers p) (p_clock p)) as [ws clock] eqn:E. cbn [p_workers].
   intros Hn. apply NoDup_map_filter. eapply sync_listed_nodup; eassumption.
+Qed.
+
+Lemma pool_sync_SKP c listed p : SKP (p_workers p) (p_workers (pool_sync c listed p)).
+Proof. rewrite pool_sync_is_sync_at. apply (pool_sync_at_SKP c _ listed (snd (tick p))). Qed.
+
+Lemma pool_sync_nodup c listed p : NoDup (map w_id (p_workers p)) -> NoDup (map w_id (p_workers (pool_sync c listed p))).
+Proof. rewrite pool_sync_is_sync_at. apply (pool_sync_at_nodup c _ listed (snd (tick p))). Qed.
+
+(* a sync never drops a worker that was updated after its threshold: the answer of the cloud is a snapshot from
+   when the list request was issued, and whatever the pool has learnt since then wins *)
+Lemma in_put_keep w w' ws : In w ws -> In w (put_w w' ws) \/ (w_id w = w_id w' /\ In w' (put_w w' ws)).
+Proof.
+  induction ws as [|x r IH]; intros Hin; [destruct Hin|]. cbn [put_w].
+  destruct (N.eqb (w_id x) (w_id w')) eqn:E.
+  - destruct Hin as [->|Hin]; [right; split; [apply N.eqb_eq; exact E|left; reflexivity]|left; right; exact Hin].
+  - destruct Hin as [->|Hin]; [left; left; reflexivity|].
+    destruct (IH Hin) as [H|[H1 H2]]; [left; right; exact H|right; split; [exact H1|right; exact H2]].
+Qed.
+
+Lemma sync_listed_keeps_fresh c th i listed : forall ws clock ws1 clock1,
+  th <= clock -> (exists w, In w ws /\ w_id w = i /\ th < w_updated w) ->
+  sync_listed c listed ws clock = (ws1, clock1) -> exists w, In w ws1 /\ w_id w = i /\ th < w_updated w.
+Proof.
+  induction listed as [|[[id it] ib] r IH]; intros ws clock ws1 clock1 Hth (w & Hin & Hid & Hup); cbn [sync_listed].
+  - intros H; injection H as <- _. eauto.
+  - destruct (find_w id ws) as [w0|] eqn:Ef.
+    + destruct (wstate_eqb _ _ && _); intros H.
+      * eapply IH; [| |exact H]; [lia|].
+        destruct (in_put_keep w (w_shutdown (clock + 1 + 1) (with_updated w0 (clock + 1))) ws Hin) as [Hk|[He Hk]].
+        -- exists w. auto.
+        -- eexists. split; [exact Hk|]. split; [cbn in *; congruence|cbn; lia].
+      * eapply IH; [| |exact H]; [lia|].
+        destruct (in_put_keep w (with_updated w0 (clock + 1)) ws Hin) as [Hk|[He Hk]].
+        -- exists w. auto.
+        -- eexists. split; [exact Hk|]. split; [cbn in *; congruence|cbn; lia].
+    + intros H. eapply IH; [| |exact H]; [lia|]. exists w. split; [apply in_or_app; left; exact Hin|auto].
+Qed.
+
+Theorem sync_at_keeps_fresh c th listed p w :
+  th <= p_clock p -> In w (p_workers p) -> th < w_updated w ->
+  In (w_id w) (ids (pool_sync_at c th listed p)).
+Proof.
+  intros Hth Hin Hup. unfold ids, pool_sync_at.
+  destruct (sync_listed c listed (p_workers p) (p_clock p)) as [ws clock] eqn:E. cbn [p_workers].
+  destruct (sync_listed_keeps_fresh c th (w_id w) listed _ _ _ _ Hth (ex_intro _ w (conj Hin (conj eq_refl Hup))) E)
+    as (w' & Hin' & Hid' & Hup').
+  rewrite <- Hid'. apply in_map. apply filter_In. split; [exact Hin'|]. apply Z.ltb_lt. exact Hup'.
+Qed.
+
+(* an instance created by the pool carries a stamp later than everything before *)
+Lemma create_is_fresh it newid p p' :
+  pool_create it newid 0 p = (true, p') -> p_quota p = false ->
+  exists w, In w (p_workers p') /\ w_id w = newid /\ p_clock p < w_updated w.
+Proof.
+  unfold pool_create. intros H Hq. rewrite Hq in H. cbn in H. injection H as <-. cbn [p_workers set_workers].
+  eexists. split; [apply in_or_app; right; left; reflexivity|]. split; [reflexivity|]. cbn. lia.
 Qed.
 
 Lemma pool_create_workers it newid oc p :
@@ -348,6 +408,11 @@ Proof.
   - cbn [snd ms_pool]. apply F2_both. apply F2_refl.
   - contradiction.
   - cbn [snd ms_pool]. apply F2_both. apply F2_refl.
+  - (* OSyncBegin *) cbn [tick snd ms_pool p_workers]. apply F2_both. apply F2_refl.
+  - (* OSyncEnd *)
+    destruct (ms_sync m) as [[th l]|]; cbn [snd ms_pool]; [|apply F2_both; apply F2_refl]. split.
+    + pose proof (pool_sync_at_SKP c th l (snd (tick p))) as H. rewrite Ht in H. exact H.
+    + pose proof (pool_sync_at_nodup c th l (snd (tick p))) as H. rewrite Ht in H. exact H.
 Qed.
 
 Lemma op_restart_dec (o : op) : o = ORestart \/ o <> ORestart.
@@ -402,7 +467,7 @@ Qed.
 Lemma in_live_on disc ob v u : In (v, u) (live_on disc ob) <-> In v disc /\ In (v, u) (ob_live ob).
 Proof. unfold live_on. rewrite filter_In. cbn [fst]. rewrite memN_In. tauto. Qed.
 
-Theorem wp_step_ok_spec shut disc prev o ob : C14_wp_run.step_ok shut disc prev o ob = true <-> step_P shut disc prev o ob.
+Theorem wp_step_ok_spec shut disc sb prev o ob : C14_wp_run.step_ok shut disc sb prev o ob = true <-> step_P shut disc sb prev o ob.
 Proof.
   unfold C14_wp_run.step_ok, step_P. rewrite andb_true_iff, nodup_uuid_spec.
   assert (forall A B C : Prop, (A <-> B) -> (A /\ C <-> B /\ C)) as Hc by tauto. apply Hc. clear Hc.
@@ -418,11 +483,18 @@ Proof.
       * intros [H|[[[-> ->] H2] H3]]; [left; exact H|right; auto].
       * intros [H|[H1 [H2 H3]]]; [left; exact H|right]. injection H1 as -> ->. auto.
     + split; [intros [H|[[H _] _]]; [left; exact H|discriminate]|intros [H|[H _]]; [left; exact H|discriminate]].
+  - (* OSyncEnd *)
+    destruct sb as [b|]; [|split; [intros _ b' Hb; discriminate|reflexivity]].
+    rewrite forallb_forall. split.
+    + intros H b' Hb i Hi Hn. injection Hb as <-. specialize (H i Hi). apply orb_true_iff in H.
+      destruct H as [H|H]; apply memN_In in H; [contradiction|exact H].
+    + intros H i Hi. apply orb_true_iff. destruct (memN i b) eqn:E; [left; reflexivity|right].
+      apply memN_In. apply (H b eq_refl i Hi). intros Hin. apply memN_In in Hin. congruence.
 Qed.
 
-Theorem wp_spec_steps_spec steps : forall shut disc prev, spec_steps shut disc prev steps = true <-> spec_P shut disc prev steps.
+Theorem wp_spec_steps_spec steps : forall shut disc sb prev, spec_steps shut disc sb prev steps = true <-> spec_P shut disc sb prev steps.
 Proof.
-  induction steps as [|[o ob] r IH]; intros shut disc prev; cbn [spec_steps spec_P]; [tauto|].
+  induction steps as [|[o ob] r IH]; intros shut disc sb prev; cbn [spec_steps spec_P]; [tauto|].
   rewrite andb_true_iff, wp_step_ok_spec, IH. tauto.
 Qed.
 
@@ -583,10 +655,10 @@ Proof.
 Qed.
 
 (* and the full specification implies them *)
-Theorem wp_spec_implies_pool_clauses steps : forall shut disc prev,
-  spec_P shut disc prev steps -> pool_clauses shut prev steps.
+Theorem wp_spec_implies_pool_clauses steps : forall shut disc sb prev,
+  spec_P shut disc sb prev steps -> pool_clauses shut prev steps.
 Proof.
-  induction steps as [|[o ob] r IH]; intros shut disc prev; cbn [spec_P pool_clauses]; [auto|].
+  induction steps as [|[o ob] r IH]; intros shut disc sb prev; cbn [spec_P pool_clauses]; [auto|].
   intros [[Hs _] Hr]. split; [|eapply IH; exact Hr].
   destruct o; cbn [pool_clause]; auto. destruct Hs as [H|(A & B & _)]; [left; exact H|right; auto].
 Qed.
